@@ -645,6 +645,18 @@ where
                     cx.defer(Err(fail(a, "read_element", format!("m[({},{})] on {} = {} reads {}, abstract element is {}", i, j, name, show(model), idname(v.0), idname(model[i][j])))));
                 }
             }
+            // just outside the matrix: (i, N) names no element and neither does (N, j); indexing
+            // panics in both layouts (it must not silently alias an element of the next line)
+            let nn = model.len();
+            for (oi, oj) in [(i, nn), (nn, j)] {
+                let pr = guarded(move || r0.v_index(oi, oj).0);
+                let pc = guarded(move || c0.v_index(oi, oj).0);
+                for (a, pv, name) in [(&ar, pr, R::NAME), (&ac, pc, C::NAME)] {
+                    if let Ok(id) = pv {
+                        cx.defer(Err(fail(a, "index_outside_matrix_accepted", format!("m[({},{})] on a {}x{} {} did not panic but returned {}", oi, oj, nn, nn, name, idname(id)))));
+                    }
+                }
+            }
         }
         Op::Write(i, j) => {
             let t = Tag(cx.fresh());
